@@ -44,6 +44,8 @@ type Case struct {
 	Final  Final    `json:"final"`
 }
 
+func jsonUnmarshal(b []byte, v any) error { return json.Unmarshal(b, v) }
+
 type quiet struct{}
 
 func (quiet) Error(...any) {}
@@ -380,10 +382,16 @@ func main() {
 	concN := flag.Int("conc", 0, "this many generated schedules of two concurrent starters")
 	concCases := flag.String("conc-cases", "", "file with concurrent cases (cfg, nhosts, sched) to run")
 	partialN := flag.Int("partial", 0, "clustered configurations: one in N script statements of a first start completes on some hosts only (1 = every statement)")
+	bootN := flag.Int("boot", -1, "bootstrap path (ctrl.Init over the fake TCP server): the fixed cases plus this many generated ones")
+	bootCases := flag.String("boot-cases", "", "file with bootstrap cases (cfg, nhosts, default, ttl0, faults) to run")
 	f := hx.ParseFlags()
 	out := hx.OpenOut(f.Out)
 	defer out.Close()
 	loadErrPool(*errtexts)
+	if *bootN >= 0 || *bootCases != "" {
+		bootMain(hx.Rand(f.Seed), *bootN, *bootCases, out)
+		return
+	}
 	if *concN > 0 {
 		r := hx.Rand(f.Seed)
 		for i := 0; i < *concN; i++ {
